@@ -649,7 +649,7 @@ func execCaseOnce(c Case) Result {
 			e.fail(sig, "%s", msg)
 			return e.finish()
 		}
-		asg := assignments(txs, valid, invalid, 64)
+		asg := assignments(txs, valid, invalid, 300)
 		if len(asg) == 0 {
 			// lists are a partition as multisets but not in block order: take the verdicts by
 			// multiset (valid first); order is not part of the property.
